@@ -596,7 +596,10 @@ def validators(ctx):
     ary = atom(("mcall", atom(("call", "numpy.array", (y,), ())), "ravel", (), ()))
     ctx.ob("TAB-validate", "StreamingDetector._validate_y", "a label is flattened and returned", tr.retval == ary, q.short(tr.retval, 100) if tr.retval is not None else "")
     rs = tr.raises()
-    okr = len(rs) == 1 and rs[0].exc == "ValueError" and guards(rs[0]) == [T.mk_cmp("!=", atom(("getattr", ary, "shape")), atom(("tuple", (const(1),))))]
+    okr = len(rs) == 1 and rs[0].exc == "ValueError" and guards(rs[0]) in (
+        [T.mk_cmp("!=", atom(("getattr", ary, "shape")), atom(("tuple", (const(1),))))],
+        [T.mk_cmp("!=", atom(("getattr", ary, "size")), const(1))],                       # the flattened array has shape (size,)
+        [T.mk_cmp("!=", atom(("call", "len", (ary,), ())), const(1))])
     ctx.ob("TAB-validate", "StreamingDetector._validate_y", "refused exactly when it is not a single value", okr, "; ".join(q.short(g, 80) for e in rs for g in guards(e)))
     tr = vtrace(ctx, "BatchDetector", "_validate_y")
     b0 = atom(("call", "numpy.array", (y,), ()))
